@@ -6,16 +6,20 @@
                                     parser, the others to the transformation parser), the two "did not pick"
                                     checks, build_formula, the transform_cnf loop (left to right), to_file
      cnfgen/clitools/cmdline.py     positive_int, nonnegative_int, positive_even_int, compose_two_parsers
-     cnfgen/clihelpers/*.py         setup_command_line / build_formula of php bphp rphp count parity
-                                    cliquecoloring op ram vdw ptn cpls and or true false;
+     cnfgen/clihelpers/*.py         setup_command_line / build_formula of
+                                      php bphp rphp count parity cliquecoloring op ram vdw ptn cpls and or true false
+                                      kcolor ec tiling matching kclique kcliquebin domset tseitin subsetcard peb stone
+                                      (and php / op on a graph argument);
                                     setup_command_line / transform_cnf of none flip ite or xor eq neq maj one
                                     lift atleast atmost exact anybut
+     cnfgen/clitools/graph_args.py  the graph argument: PipelineGraph.v (GraphSpec.v + deterministic GraphGen.v)
      argparse (3.12.1)              _parse_optional (classification of a token as option 'O' or argument 'A'),
                                     _parse_known_args (alternation of consume_optional / consume_positionals,
                                     mutually exclusive groups, extras => "unrecognized arguments",
                                     "the following arguments are required")
                                     restricted to the TOKEN GRAMMAR below
-     cnfgen/formula/basecnf.py, cnfio.py, utils/parsedimacs.py   header, to_file -> Dimacs.print_dimacs
+     cnfgen/formula/basecnf.py, cnfio.py, utils/parsedimacs.py, utils/opb.py
+                                    to_file -> Dimacs.print_dimacs / OpbText.print_opb (header: PipelineHeader.v)
 
    The argument of [cnfgen_main] is sys.argv[1:] (the program name is not part of it).
 
@@ -24,17 +28,20 @@
      * before the formula name only the exact tokens  -q --quiet -v --verbose  (any number of them) and
        -of / --output-format followed by dimacs or opb (latex is outside);
      * a token starting with "-" after a formula / transformation name is
-         - an exact option string of that sub-command (php: --functional --onto; op: --total -t --smart -s
-           --knuth2 --knuth3 --plant -p), or
+         - an exact option string of that sub-command that takes no argument (php: --functional --onto;
+           op: --total -t --smart -s --knuth2 --knuth3 --plant -p; kclique: --no-symmetry-breaking;
+           domset: --alternative -a; subsetcard: --equal -e), or
          - "-" followed by decimal digits only (argparse reads it as an argument: a negative number), or
          - "--x..." that is not a prefix of any long option of the main parser, of the sub-command or of
            --help, and contains neither "=" nor a blank  (argparse: unknown option => error at the end), or
          - "-c" for one letter c that is no short option of the sub-command nor -h (unknown option);
-       any other such token (abbreviated options, -h/--help, "--", "-", joined short options, "=" forms) is outside;
+       any other such token (abbreviated options, -h/--help, "--", "-", joined short options, "=" forms,
+       options with an argument such as stone --sparse) is outside;
      * the first token of a -T chunk does not start with "-";
-     * formula names pitfall randkcnf randkxor (random) and the names with a graph argument that this file does
-       not model are outside; `php M N D` with D <> N and `op N d` (random graphs) are outside;
-       transformation names shuffle xorcomp majcomp (random / graph argument) are outside.
+     * formula names pitfall randkcnf randkxor (random) and dimacs iso ramlb subgraph (files / not modelled) are
+       outside; `php M N D` with D <> N, `op N d`, `tseitin N [d]`, `subsetcard N [d]` (random graphs) and the random
+       charges of tseitin are outside; graph arguments other than the deterministic constructions
+       (PipelineGraph.v) are outside; transformation names shuffle xorcomp majcomp are outside.
    Inside the grammar the result is POut text (exit status 0, exactly these bytes on standard output) or
    PCliError (CLIError: message on the error stream, exit status 255, nothing on standard output).
    PCrash would be an exception that is neither CLIError nor caught by main(): Prop_C17_pipeline.v proves
@@ -42,8 +49,8 @@
 
    int(token) and float(token) are GraphSpec.gs_int / gs_float_ok.  Integers are unbounded (a run of the real
    tool on huge numbers is a matter of memory and time, not of this model).
-   The header written without -q has one line that is not a function of argv, `generator: CNFgen (<version>)`:
-   [version] is a parameter of [cnfgen_main_env].
+   [cnfgen_main] is the program under -q (without -q: POutside); PipelineHeader.cnfgen_main_env adds the comment
+   header, whose only part that is not a function of argv is the version of the installation.
 
    Identifiers are prefixed pl_ (single extracted OCaml module). *)
 From Coq Require Import ZArith List Bool Ascii String.
